@@ -83,6 +83,12 @@ type Case struct {
 	FillK string `json:"fill_k,omitempty"` // Fill data value of k; "" = not in Fill
 	Via   string `json:"via,omitempty"`    // "" = Load(p).Fill(d).Render ; "renderfile" = Fill(d).RenderFile(p)
 
+	// LayoutVia: where the page's layout name (Page.Layout) comes from: "" = the page's
+	// front-matter (the statement's case); "fill" = key `layout` of the Fill data; "assign" =
+	// Assign("layout", name) on the loaded page. In the last two the page's front-matter has no
+	// layout key.
+	LayoutVia string `json:"layout_via,omitempty"`
+
 	// The filesystem the engine is given. The file set above is the UNION the engine must see;
 	// how it is physically stored must not matter.
 	FS      string   `json:"fs,omitempty"`      // "" = memfs (Open+Stat+ReadDir); "openonly" = every fs.FS is wrapped so that only Open is available
@@ -174,7 +180,7 @@ func mount(c Case) (fs.FS, []*memfs.FS) {
 	for _, f := range expand(c) {
 		layers[at[f.Path]].Write(f.Path, source(f, false), memfsTime)
 	}
-	layers[at[c.Page.Path]].Write(c.Page.Path, source(c.Page, true), memfsTime)
+	layers[at[c.Page.Path]].Write(c.Page.Path, sourceFM(c.Page, true, c.LayoutVia == ""), memfsTime)
 	if c.Overlay != nil {
 		for _, p := range c.Overlay.Stale {
 			l, ok := at[p]
@@ -204,15 +210,31 @@ func mount(c Case) (fs.FS, []*memfs.FS) {
 	return ov, all
 }
 
+// nonString lists layout names that YAML reads as non-string scalars when written plainly
+// (`layout: 404` for layouts/404.vuego, `layout: true`, `layout: 1.5`): front-matter *names* a
+// layout, the name of such a file is the scalar's text. Only canonical spellings are used (what
+// `1.0`, `0x10`, `1e3`, `false`, `null` or a date would name is not specified).
+var nonString = map[string]any{"404": 404, "2024": 2024, "true": true, "1.5": 1.5}
+
+// typed returns the Go value a YAML reader would produce for the plain scalar name.
+func typed(name string) any {
+	if v, ok := nonString[name]; ok {
+		return v
+	}
+	return name
+}
+
 func markerID(p string) string { return strings.TrimSuffix(p, ".vuego") }
 
 // source renders a file description to template text. Every file shows k, pg and fd in
 // separate <b data-v> cells; layouts embed the previous result the documented way
 // (<div v-html="content">, docs/themes.md).
-func source(f File, isPage bool) string {
+func source(f File, isPage bool) string { return sourceFM(f, isPage, true) }
+
+func sourceFM(f File, isPage, withLayout bool) string {
 	var sb strings.Builder
 	var fm []string
-	if f.Layout != "" {
+	if f.Layout != "" && withLayout {
 		fm = append(fm, "layout: "+f.Layout)
 	}
 	if f.K != "" {
@@ -258,7 +280,7 @@ const (
 	oOK      outcome = iota // chain ends
 	oMissing                // a named layout resolves to no file
 	oCycle                  // a file is reached twice: the chain cannot end
-	oUnspec                 // explicit *.vuego path whose relative target is absent (docs: "used as-is"; fallback unspecified)
+	oUnspec                 // unspecified: explicit *.vuego path whose relative target is absent (docs: "used as-is"), or a page named again whose layout name came through Fill / Assign
 )
 
 type plan struct {
@@ -276,6 +298,8 @@ type plan struct {
 	// probed: files whose mere existence decided a step (layouts/base.vuego for the default rule,
 	// a file found next to the naming file) - the engine must find them wherever they are stored
 	probed []string
+	// nonStr: a taken link was named by a non-string YAML scalar
+	nonStr bool
 }
 
 // doc returns the files whose markers make up the expected document, innermost first.
@@ -310,6 +334,9 @@ func walk(c Case) plan {
 	for {
 		if next == "" {
 			name := cur.Layout
+			if _, ns := nonString[name]; ns {
+				pl.nonStr = true
+			}
 			dir := path.Dir(cur.Path)
 			lay := "layouts/" + name + ".vuego"
 			switch {
@@ -339,6 +366,13 @@ func walk(c Case) plan {
 			pl.out = oMissing
 			return pl
 		}
+		if next == c.Page.Path && c.LayoutVia != "" && c.Page.Layout != "" {
+			// the page file itself has no layout key (the name came through Fill / Assign):
+			// whether that variable still counts when the page file is reached again as a
+			// layout is not specified
+			pl.out = oUnspec
+			return pl
+		}
 		if next == c.Page.Path && c.Page.Layout == "" {
 			pl.pageReused = true
 			pl.chain = append(pl.chain, c.Page)
@@ -362,22 +396,20 @@ func walk(c Case) plan {
 // allowedK returns the admissible values of k inside chain[i] (nil = unasserted).
 //
 //   - the file's own front-matter defines k: that value (C08: the rendered file's own
-//     front-matter comes first);
-//   - otherwise the page's k must still be visible (statement): the page's front-matter value
-//     or the Fill value. Where both exist, which of the two a *layout* shows is not fixed by the
-//     statement; inside the page itself its own front-matter wins;
-//   - whether the front-matter of an earlier layout stays visible in later layouts is not
-//     stated (the anchors speak of "accumulated data"): such values are tolerated as well;
-//   - k defined nowhere visible: what an undefined variable renders as is not documented.
+//     front-matter comes first; docs/components.md: "front-matter values are authoritative");
+//   - otherwise the page's k must still be visible (statement: "the page's data and front-matter
+//     still visible"): the page's front-matter value or the Fill value. A k from the front-matter
+//     of an intermediate layout is neither: if an outer layout showed it, the page's value would
+//     no longer be visible there. Where page front-matter and Fill both define k, which of the
+//     two a *layout* shows is not fixed by the statement; inside the page its own front-matter wins;
+//   - k defined neither by the page nor by Fill: what an undefined variable renders as is not
+//     documented, and nothing of the page is hidden if an earlier layout's k shows: unasserted.
 func allowedK(c Case, chain []File, i int, pageReused bool) []string {
 	f := chain[i]
 	if f.K != "" {
 		return []string{f.K}
 	}
 	if i == 0 {
-		if pageReused {
-			return nil // the page file acting as last layout: earlier layouts' k may or may not be visible
-		}
 		if c.FillK != "" {
 			return []string{c.FillK}
 		}
@@ -389,14 +421,6 @@ func allowedK(c Case, chain []File, i int, pageReused bool) []string {
 	}
 	if c.FillK != "" {
 		a = append(a, c.FillK)
-	}
-	if len(a) == 0 {
-		return nil
-	}
-	for j := 1; j < i; j++ {
-		if chain[j].K != "" {
-			a = append(a, chain[j].K)
-		}
 	}
 	return a
 }
@@ -426,6 +450,15 @@ func execute(c Case) (res result) {
 	if c.FillK != "" {
 		data["k"] = c.FillK
 	}
+	if c.LayoutVia == "fill" && c.Page.Layout != "" {
+		data["layout"] = typed(c.Page.Layout)
+	}
+	assign := func(t vuego.Template) vuego.Template {
+		if c.LayoutVia == "assign" && c.Page.Layout != "" {
+			return t.Assign("layout", typed(c.Page.Layout))
+		}
+		return t
+	}
 	w := &sink{b: fw.Budget{Limit: writeBudget}}
 	func() {
 		defer func() {
@@ -440,9 +473,9 @@ func execute(c Case) (res result) {
 		// no goroutine, no clock: non-termination shows up as an exhausted budget
 		switch c.Via {
 		case "renderfile":
-			res.err = vuego.NewFS(m).Fill(data).RenderFile(context.Background(), w, c.Page.Path)
+			res.err = assign(vuego.NewFS(m).Fill(data)).RenderFile(context.Background(), w, c.Page.Path)
 		default:
-			res.err = vuego.NewFS(m).Load(c.Page.Path).Fill(data).Render(context.Background(), w)
+			res.err = assign(vuego.NewFS(m).Load(c.Page.Path).Fill(data)).Render(context.Background(), w)
 		}
 	}()
 	res.out = w.Got
@@ -477,7 +510,7 @@ func check(c Case) error {
 	if err != nil {
 		return err
 	}
-	if !pl.defaultDue || pl.pageReused || pl.out == oUnspec {
+	if !pl.defaultDue || pl.pageReused || pl.out == oUnspec || c.LayoutVia != "" {
 		return nil
 	}
 	shadow := path.Join(path.Dir(c.Page.Path), "base.vuego")
@@ -510,7 +543,23 @@ func check(c Case) error {
 func checkOne(c Case) (plan, result, error) {
 	pl := walk(c)
 	res := execute(c)
-	return pl, res, judge(c, pl, res)
+	err := judge(c, pl, res)
+	if err == nil || c.LayoutVia == "" || c.Page.Layout == "" {
+		return pl, res, err
+	}
+	// The layout name reaches the page through Fill / Assign instead of front-matter. The
+	// statement and the docs speak of the front-matter key only, so two readings are consistent:
+	// the variable names the layout exactly as the front-matter key would (what pl describes), or
+	// it is no layout key at all (the page names no layout: default rule). The result must be the
+	// clean outcome of one of them; a mixture (e.g. taking the layout path but then not seeing the
+	// name) is neither.
+	d := c
+	d.Page.Layout, d.LayoutVia = "", ""
+	pl2 := walk(d)
+	if err2 := judge(d, pl2, res); err2 != nil {
+		return pl, res, fmt.Errorf("layout name %q supplied through %s: the result fits neither reading.\n as the page's layout: %v\n ignored (page names no layout): %v", c.Page.Layout, c.LayoutVia, err, err2)
+	}
+	return pl2, res, nil
 }
 
 func judge(c Case, pl plan, res result) error {
@@ -738,6 +787,24 @@ func classify(c Case) (bool, []string) {
 	if pl.pageReused {
 		cls = append(cls, "page-file-reused-as-last-layout")
 	}
+	if pl.nonStr {
+		cls = append(cls, "link:name-is-non-string-yaml-scalar")
+	}
+	if c.LayoutVia != "" && c.Page.Layout != "" {
+		cls = append(cls, "page-layout-supplied-via="+c.LayoutVia)
+	}
+	// an intermediate layout defines k, an outer layout does not, and the page or Fill does
+	if pl.out == oOK && (c.Page.K != "" || c.FillK != "") {
+		seenK := false
+		for i := 1; i < len(pl.chain); i++ {
+			if pl.chain[i].K != "" {
+				seenK = true
+			} else if seenK {
+				cls = append(cls, "k:outer-layout-must-see-page-value-past-intermediate-layout-k")
+				break
+			}
+		}
+	}
 	// collisions on k among the files actually on the chain
 	layK := 0
 	for i := 1; i < len(pl.chain); i++ {
@@ -889,7 +956,7 @@ func applyKMask(c *Case, m int) {
 // the naming file it would shadow layouts/, so it is only added when the target is the nearer one);
 // viaDefault makes n1 = layouts/base.vuego reached through the default rule (page names nothing).
 // end: -3 chain ends, -2 last names a missing file, j>=0 last names chain[j] again (0 = the page).
-func shapeCase(L, dirs, decoys int, viaDefault bool, end int) Case {
+func shapeCase(L, dirs, decoys int, viaDefault bool, end int, alt bool) Case {
 	c := Case{Page: File{Path: "pages/p.vuego"}}
 	dirOf := func(i int) string { // i = 0 is the page
 		if i == 0 || dirs&(1<<(i-1)) != 0 {
@@ -906,6 +973,9 @@ func shapeCase(L, dirs, decoys int, viaDefault bool, end int) Case {
 		}
 		if i == 1 && viaDefault {
 			return "base"
+		}
+		if alt && i <= 4 {
+			return []string{"404", "true", "1.5", "2024"}[i-1] // names YAML reads as int / bool / float
 		}
 		return fmt.Sprintf("n%d", i)
 	}
@@ -953,7 +1023,7 @@ func shapeCase(L, dirs, decoys int, viaDefault bool, end int) Case {
 }
 
 var rapidDirs = []string{"layouts", "pages"}
-var rapidNames = []string{"a", "b", "c", "base"}
+var rapidNames = []string{"a", "404", "true", "base"}
 
 func genCase(t *rapid.T) Case {
 	c := Case{Page: File{Path: "pages/p.vuego"}}
@@ -986,7 +1056,7 @@ func genCase(t *rapid.T) Case {
 	present[c.Page.Path] = true
 	// a layout name as written in front-matter, for a file living in dir
 	drawName := func(label, dir string, allowNone bool) string {
-		opts := []string{"a", "b", "c", "base", "a", "b", "p", "zz"}
+		opts := []string{"a", "404", "true", "base", "a", "404", "p", "zz"}
 		if allowNone {
 			opts = append(opts, "", "")
 		}
@@ -1049,6 +1119,9 @@ func genCase(t *rapid.T) Case {
 	}
 	if rapid.Bool().Draw(t, "via") {
 		c.Via = "renderfile"
+	}
+	if c.Page.Layout != "" {
+		c.LayoutVia = rapid.SampledFrom([]string{"", "", "", "", "fill", "assign"}).Draw(t, "layout.via")
 	}
 	// storage
 	switch rapid.IntRange(0, 5).Draw(t, "fs") {
@@ -1275,13 +1348,21 @@ func shapes(s *stage) {
 						continue // the page naming itself is emitted below
 					}
 					i := s.n
-					c := shapeCase(L, dirs, (i*5+3)%(1<<L), viaDefault, end)
+					c := shapeCase(L, dirs, (i*5+3)%(1<<L), viaDefault, end, (i/2)%2 == 1)
 					if !viaDefault && L > 0 && i%3 == 0 {
 						c.Files = append(c.Files, File{Path: basePath, Layout: "zz"}) // present but not due
 					}
 					applyKMask(&c, (i*7+i/5)%(4<<min(len(c.Files), L)))
 					if i%2 == 1 {
 						c.Via = "renderfile"
+					}
+					if !viaDefault && L > 0 {
+						switch i % 6 {
+						case 1:
+							c.LayoutVia = "fill"
+						case 4:
+							c.LayoutVia = "assign"
+						}
 					}
 					rotateFS(&c, i)
 					if !s.yield(c) {
@@ -1298,17 +1379,18 @@ func shapes(s *stage) {
 	}
 }
 
-// allGraphs: every graph over the layout files {layouts/a, layouts/b, pages/a, layouts/base}
-// (+ pages/b in the thorough tier): each absent or present naming none / a / b / base / zz (no
-// such file) (thorough: also p, the page itself), x every page option none / a / b / base / p / zz.
+// allGraphs: every graph over the layout files {layouts/a, layouts/404, pages/a, layouts/base}
+// (+ pages/404 in the thorough tier; 404 is a name YAML reads as an integer): each absent or
+// present naming none / a / 404 / base / zz (no
+// such file) (thorough: also p, the page itself), x every page option none / a / 404 / base / p / zz.
 // k sources and entry point rotate.
 func allGraphs(s *stage, slots []string) {
-	pageNames := []string{"", "a", "b", "base", "p", "zz"}
+	pageNames := []string{"", "a", "404", "base", "p", "zz"}
 	names := pageNames
 	if !run.Thorough() {
 		// quick tier: layout files do not name the page (cycles through the page are covered by
 		// the shape stage and by the random stage); the page itself still may
-		names = []string{"", "a", "b", "base", "zz"}
+		names = []string{"", "a", "404", "base", "zz"}
 	}
 	enumGraphs(slots, names, pageNames, func(_ int, c Case) bool {
 		i := s.n
@@ -1356,9 +1438,9 @@ func TestProp(t *testing.T) {
 	// Stages run from cheap and targeted to expensive. Once a stage has failed, the violation is
 	// established (replay file written by run.Finish) and the later stages are skipped: with a
 	// broken termination rule every further cyclic case would cost the full open budget.
-	slots := []string{"layouts/a.vuego", "layouts/b.vuego", "pages/a.vuego", basePath}
+	slots := []string{"layouts/a.vuego", "layouts/404.vuego", "pages/a.vuego", basePath}
 	if run.Thorough() {
-		slots = append(slots, "pages/b.vuego")
+		slots = append(slots, "pages/404.vuego")
 	}
 	for _, x := range []struct {
 		kind, what string
